@@ -26,13 +26,13 @@ int main_replay(){
       int idx = merged.getIndex(i)[0];
       for (int q = 0; q < 2; q++) if (st.getValues(i)[q] != f(idx, q)){
         std::printf("old set {"); for (int k : o) std::printf(" %d", k); std::printf(" } new set {"); for (int k : n) std::printf(" %d", k);
-        std::printf(" }: after addValues the value stored for index %d output %d is %g, supplied %g\\n", idx, q, st.getValues(i)[q], f(idx, q));
+        std::printf(" }: after addValues the value stored for index %d output %d is %g, supplied %g\n", idx, q, st.getValues(i)[q], f(idx, q));
         __CPROVER_assert(0, "A1 every value remains attached to the multi-index it was supplied for");
         return 0;
       }
     }
   }
-  std::printf("no failing input among the 6561 enumerated pairs of index sets\\n");
+  std::printf("no failing input among the 6561 enumerated pairs of index sets\n");
   return 0;
 }
 '''
